@@ -98,6 +98,48 @@ Proof.
   intros. unfold oldest. apply find_from_first; try assumption; try lia. intros. apply H. assumption.
 Qed.
 
+(* pointwise algebra of the two resume situations (kept small: one family at a time) *)
+Lemma resume_from_o : forall f i o e j e', o < e -> o <= j -> j <= e -> e <= e' -> e' < W64 ->
+  keep o f i && negb (prefix_kills f i o e j false) && negb (run_kills f i o e' e') = keep e' f i.
+Proof.
+  intros f i o e j e' Hoe Hoj Hje Hee' HW.
+  rewrite <- (keep_after_run f i o e') by lia.
+  assert (E1 : sub64 e 1 = e - 1) by (apply sub64_exact; lia).
+  assert (E1' : sub64 e' 1 = e' - 1) by (apply sub64_exact; lia).
+  unfold prefix_kills, run_kills, init_kills, flat_kills, range_kills, keep, LAG. rewrite ?E1, ?E1'.
+  destruct f; nsplit.
+Qed.
+
+Lemma cancelled_then_init : forall f i o e k, o < e -> o <= k -> k <= e -> e < W64 ->
+  keep o f i && negb (prefix_kills f i o e k true) && negb (init_kills f i k)
+  = keep k f i && negb (init_kills f i k).
+Proof.
+  intros f i o e k Hoe Hok Hke HW.
+  assert (E1 : sub64 e 1 = e - 1) by (apply sub64_exact; lia).
+  pose proof (wf_mono o k ltac:(lia)) as Hw. unfold wf in Hw.
+  unfold prefix_kills, init_kills, flat_kills, range_kills, keep, LAG. rewrite ?E1.
+  destruct f; nsplit.
+Qed.
+
+Lemma resume_from_k : forall f i o e k e', o < e -> o <= k -> k <= e -> e <= e' -> k < e' -> e' < W64 ->
+  keep o f i && negb (prefix_kills f i o e k true) && negb (run_kills f i k e' e') = keep e' f i.
+Proof.
+  intros f i o e k e' Hoe Hok Hke Hee' Hke' HW.
+  rewrite <- (keep_after_run f i k e') by lia.
+  pose proof (cancelled_then_init f i o e k Hoe Hok Hke ltac:(lia)) as X.
+  unfold run_kills. destruct (init_kills f i k); cbn [orb negb] in *.
+  - rewrite !andb_false_r. reflexivity.
+  - rewrite !andb_true_r in X. rewrite X. reflexivity.
+Qed.
+
+(* a complete cancelled run, k = e: the shape is exactly keep e *)
+Lemma complete_prefix : forall f i o e, o < e -> e < W64 ->
+  keep o f i && negb (prefix_kills f i o e e true) = keep e f i.
+Proof.
+  intros. rewrite <- (keep_after_run f i o e) by lia. unfold prefix_kills, run_kills.
+  cbn [andb]. reflexivity.
+Qed.
+
 (* interrupt a sweep o -> e (cancelled at k, cut after m batches) anywhere, run a complete sweep to
    e' >= e afterwards: the result is the pruned shape at e', exactly as if nothing had been interrupted *)
 Lemma resume_same_final : forall (u : store) head o e k e' rot rot' m f i,
@@ -107,10 +149,6 @@ Lemma resume_same_final : forall (u : store) head o e k e' rot rot' m f i,
   apply_batches s1 (prune_plan s1 head e' e' rot') f i = pruned u e' f i.
 Proof.
   intros u head o e k e' rot rot' m f i Hcm Hoe Hok Hke Hee' He'h He'W s1.
-  assert (E1 : sub64 e 1 = e - 1) by (apply sub64_exact; lia).
-  assert (E1' : sub64 e' 1 = e' - 1) by (apply sub64_exact; lia).
-  pose proof (wf_mono o e' ltac:(lia)) as Hw1. pose proof (wf_mono k e' ltac:(lia)) as Hw2.
-  pose proof (wf_mono o k ltac:(lia)) as Hw3.
   assert (S1 : forall g x, s1 g x = pruned u o g x &&
                   negb (killed g x (concat (firstn m (prune_batches o e k rot))))).
   { intros. unfold s1, interrupted. apply apply_batches_spec. }
@@ -118,8 +156,10 @@ Proof.
   - (* nothing committed *)
     assert (Ho : oldest s1 head = Some o).
     { apply oldest_is; try lia.
-      - intros. rewrite S1, H. unfold pruned, keep. nsplit; rewrite ?andb_false_r; try reflexivity.
-      - rewrite S1, H. unfold pruned, keep. rewrite Hcm by lia. nsplit. }
+      - intros. rewrite S1, H. unfold pruned, keep. replace (o <=? i0) with false by lia.
+        rewrite andb_false_r. reflexivity.
+      - rewrite S1, H. unfold pruned, keep. rewrite Hcm by lia. replace (o <=? o) with true by lia.
+        reflexivity. }
     unfold prune_plan. rewrite Ho. replace (e' <=? o) with false by lia.
     replace (N.max o (N.min e' e')) with e' by lia.
     rewrite apply_batches_spec, killed_prune_batches by lia. rewrite S1, H. unfold pruned.
@@ -127,37 +167,31 @@ Proof.
   - (* some hash-keyed batches committed, range deletes not yet *)
     assert (Ho : oldest s1 head = Some o).
     { apply oldest_is; try lia.
-      - intros. rewrite S1, H. unfold pruned, keep. nsplit; rewrite ?andb_false_r; try reflexivity.
-      - rewrite S1, H. unfold pruned, keep, prefix_kills. simpl. rewrite Hcm by lia. nsplit. }
+      - intros. rewrite S1, H. unfold pruned, keep. replace (o <=? i0) with false by lia.
+        rewrite andb_false_r. reflexivity.
+      - rewrite S1, H. unfold pruned, keep, prefix_kills. cbn. rewrite Hcm by lia.
+        replace (o <=? o) with true by lia. reflexivity. }
     unfold prune_plan. rewrite Ho. replace (e' <=? o) with false by lia.
     replace (N.max o (N.min e' e')) with e' by lia.
     rewrite apply_batches_spec, killed_prune_batches by lia. rewrite S1, H. unfold pruned.
-    rewrite <- (keep_after_run f i o e') by lia.
-    unfold prefix_kills, run_kills, init_kills, flat_kills, range_kills, keep.
-    rewrite ?E1, ?E1'. unfold wf, LAG in *.
-    destruct (u f i); [|reflexivity]. destruct f; nsplit.
+    destruct (u f i); [cbn [andb]|reflexivity].
+    apply (resume_from_o f i o e j e'); lia.
   - (* the whole cancelled run committed: the store restarts from k *)
+    assert (Ho : oldest s1 head = Some k).
+    { apply oldest_is; try lia.
+      - intros. rewrite S1, H. unfold pruned, keep, prefix_kills. cbn.
+        replace (i0 <? k) with true by lia. rewrite !andb_false_r. reflexivity.
+      - rewrite S1, H. unfold pruned, keep, prefix_kills. cbn. rewrite Hcm by lia.
+        replace (o <=? k) with true by lia. replace (k <? k) with false by lia. reflexivity. }
+    unfold prune_plan. rewrite Ho.
     destruct (N.eq_dec k e') as [Hk|Hk].
     + (* k = e = e': already complete *)
       subst k. assert (e = e') by lia. subst e'.
-      assert (Ho : oldest s1 head = Some e).
-      { apply oldest_is; try lia.
-        - intros. rewrite S1, H. unfold pruned, keep, prefix_kills. simpl. nsplit;
-            rewrite ?andb_false_r; try reflexivity.
-        - rewrite S1, H. unfold pruned, keep, prefix_kills. simpl. rewrite Hcm by lia. nsplit. }
-      unfold prune_plan. rewrite Ho. replace (e <=? e) with true by lia.
-      simpl. rewrite S1, H. unfold pruned.
-      rewrite <- (keep_after_run f i o e) by lia. rewrite <- andb_assoc. reflexivity.
-    + assert (Ho : oldest s1 head = Some k).
-      { apply oldest_is; try lia.
-        - intros. rewrite S1, H. unfold pruned, keep, prefix_kills. simpl. nsplit;
-            rewrite ?andb_false_r; try reflexivity.
-        - rewrite S1, H. unfold pruned, keep, prefix_kills. simpl. rewrite Hcm by lia. nsplit. }
-      unfold prune_plan. rewrite Ho. replace (e' <=? k) with false by lia.
+      replace (e <=? e) with true by lia. cbn [apply_batches fold_left].
+      rewrite S1, H. unfold pruned. rewrite <- andb_assoc, complete_prefix by lia. reflexivity.
+    + replace (e' <=? k) with false by lia.
       replace (N.max k (N.min e' e')) with e' by lia.
       rewrite apply_batches_spec, killed_prune_batches by lia. rewrite S1, H. unfold pruned.
-      rewrite <- (keep_after_run f i o e') by lia.
-      unfold prefix_kills, run_kills, init_kills, flat_kills, range_kills, keep.
-      rewrite ?E1, ?E1'. unfold wf, LAG in *.
-      destruct (u f i); [|reflexivity]. destruct f; nsplit.
+      destruct (u f i); [cbn [andb]|reflexivity].
+      apply (resume_from_k f i o e k e'); lia.
 Qed.
